@@ -642,6 +642,8 @@ func (w *world) evalSeq(seq []Seg, stack []string, depth int) Res {
 			if c.err != "" {
 				c.err, c.errMay = "", true
 			}
+			// the whole-value reading is not followed: it may yield a typed value without usable text
+			r.UErrMay = true
 		}
 		r.absorb(c, true, true)
 		r.Typed, r.Str = c.text, c.text
